@@ -61,14 +61,15 @@ type h2Endpoint struct {
 }
 
 type h2Case struct {
-	Mode   string     `json:"mode"` // flow | streams
-	Client h2Endpoint `json:"client"`
-	Server h2Endpoint `json:"server"`
-	GoAway bool       `json:"goaway"`
-	OutCh  int        `json:"out_ch"` // capacity of the relay's output channels (15 = shipped value)
-	Cap    int        `json:"cap"`    // per-direction link capacity in bytes (0 = simulator default): small values make the relay's writers block
-	WOne   int        `json:"w_one"`
-	WRand  int        `json:"w_rand"`
+	Mode        string     `json:"mode"` // flow | streams
+	Client      h2Endpoint `json:"client"`
+	Server      h2Endpoint `json:"server"`
+	GoAway      bool       `json:"goaway"`
+	GoAwayEarly bool       `json:"goaway_early"` // the GOAWAY (last stream = the highest one in use) is sent in the middle of the traffic, not after it
+	OutCh       int        `json:"out_ch"`       // capacity of the relay's output channels (15 = shipped value)
+	Cap         int        `json:"cap"`          // per-direction link capacity in bytes (0 = simulator default): small values make the relay's writers block
+	WOne        int        `json:"w_one"`
+	WRand       int        `json:"w_rand"`
 }
 
 func genH2Msg(t *tape.Tape, mode string, isReq bool) h2Msg {
@@ -188,7 +189,8 @@ func genH2(t *tape.Tape, tier, mode string) any {
 	n := 1 + t.Pick(4, 3, 2, 1)
 	c.Client = genH2Endpoint(t, mode, true, n)
 	c.Server = genH2Endpoint(t, mode, false, n)
-	c.GoAway = t.Chance(1, 8)
+	c.GoAway = t.Chance(1, 6)
+	c.GoAwayEarly = c.GoAway && t.Chance(1, 2)
 	c.Cap = []int{0, 1024, 4096, 32768}[t.Pick(5, 2, 2, 1)]
 	c.OutCh = []int{15, 0, 1, 3}[t.Pick(3, 2, 2, 1)]
 	c.WOne = t.Pick(8, 1, 0)
@@ -1023,6 +1025,7 @@ func runH2(env *core.Env, ci any) {
 			}
 		})
 	}
+	goAwaySent := false
 	sendersReady := make(chan struct{})
 	go func() {
 		<-serverReady
@@ -1048,6 +1051,19 @@ func runH2(env *core.Env, ci any) {
 			}
 			addSend(client, server)
 			addSend(server, client)
+			if c.GoAwayEarly {
+				// "no new streams, please": every stream of this run is covered by the last-stream id, so all of them go on
+				env.Sched.AddLightEvent("goaway", func() {
+					if stopEvents {
+						return
+					}
+					client.wmu.Lock()
+					client.fr.WriteGoAway(streamIDs[len(streamIDs)-1], http2.ErrCodeNo, []byte("bye"))
+					client.wmu.Unlock()
+					goAwaySent = true
+					env.Probe("goaway_in_the_middle_of_traffic")
+				})
+			}
 		})
 		close(sendersReady)
 		for _, p := range []*h2Peer{client, server} {
@@ -1179,7 +1195,7 @@ func runH2(env *core.Env, ci any) {
 	}
 	out2 := env.Sched.Run(allSent)
 	env.Sched.Drain(100000)
-	if c.GoAway && client != nil {
+	if c.GoAway && client != nil && !goAwaySent {
 		client.wmu.Lock()
 		client.fr.WriteGoAway(streamIDs[len(streamIDs)-1], http2.ErrCodeNo, []byte("bye"))
 		client.wmu.Unlock()
